@@ -576,11 +576,38 @@ func c12Eval(r *hx.Run, cs lfCase) {
 			impl = append(impl, fmt.Sprintf("i=%s e=%s g=%s f=%v", lfSortedList(s.IncludedLabels), lfSortedList(s.ExcludedLabels), lfSortedList(s.GuaranteedLabels), s.FixedLabels))
 		}
 		r.Op("lfanalyse\t"+string(b), strings.Join(impl, ";"))
+		// the Joins / Unless bookkeeping: per top-level source, how many sources reachable through WalkSources carry a
+		// verdict of canJoin (model: neverMatched)
+		var counts []string
+		total := 0
+		for _, s := range srcs {
+			c := 0
+			s.WalkSources(func(x utils.Source) {
+				if x.IsDead && strings.HasPrefix(lfDeadKind(x), "never-matched") {
+					c++
+				}
+			})
+			total += c
+			counts = append(counts, fmt.Sprint(c))
+		}
+		r.Count(fmt.Sprintf("never-matched-flags:%d", min(total, 3)))
+		r.Op("lfnever\t"+string(b), strings.Join(counts, ","))
 	}
 	base, bv, err := promeval.Instant(lfBuild(cs.Series, ""), cs.Expr, lfT0)
 	if err != nil {
 		r.Count("eval-error:" + strings.SplitN(err.Error(), ":", 2)[0])
 		return
+	}
+	// `joined` (the model's "does any left series find a partner", judged on label names) over-approximates the engine:
+	// when a one-to-one or `and` operation at the top of the query returns something, the model must not say "empty"
+	if be, ok := lfTopJoin(node); ok && len(base) > 0 {
+		lj, ok1 := lfConvert(be.LHS, map[string]bool{})
+		rj, ok2 := lfConvert(be.RHS, map[string]bool{})
+		if ok1 && ok2 && lfInFrag12(lj) {
+			lb, _ := json.Marshal(lj)
+			rb, _ := json.Marshal(rj)
+			r.Op(fmt.Sprintf("lfjoined\t%s\t%v\t%s\t%s\t%s", strings.Join(lfLabels, ","), be.VectorMatching.On, strings.Join(be.VectorMatching.MatchingLabels, ","), string(lb), string(rb)), "nonempty")
+		}
 	}
 	// the full-label semantics of the Lean model against the engine (only judged inside the fragment: the driver
 	// answers "outside" otherwise, and so does the harness when it cannot tell)
@@ -647,6 +674,29 @@ func c12Eval(r *hx.Run, cs lfCase) {
 		}
 	}
 	r.Sample(map[string]any{"expr": cs.Expr, "dead": len(dead)})
+}
+
+// lfTopJoin: the query is (in any number of parentheses) a vector-vector operation that returns left series which find
+// a partner: arithmetic / comparison one-to-one, or `and`
+func lfTopJoin(n promParser.Node) (*promParser.BinaryExpr, bool) {
+	for {
+		p, ok := n.(*promParser.ParenExpr)
+		if !ok {
+			break
+		}
+		n = p.Expr
+	}
+	be, ok := n.(*promParser.BinaryExpr)
+	if !ok || be.VectorMatching == nil || be.LHS.Type() != promParser.ValueTypeVector || be.RHS.Type() != promParser.ValueTypeVector {
+		return nil, false
+	}
+	switch {
+	case be.VectorMatching.Card == promParser.CardOneToOne:
+		return be, true
+	case be.VectorMatching.Card == promParser.CardManyToMany && be.Op == promParser.LAND:
+		return be, true
+	}
+	return nil, false
 }
 
 // canJoin on random sources and matchings: the real function (hook VerifCanJoin) against the Lean port
